@@ -332,17 +332,21 @@ def check_streams(ctx, d):
             g_def = defn.packet_generator(stream, parse_bad_pkts=True, yield_unrecognized_packet_errors=True)
             with Immut(ctx, defn, "packet_generator(root_container_name=...)"):
                 g_ov = defn.packet_generator(stream, root_container_name=other, parse_bad_pkts=True, yield_unrecognized_packet_errors=True)
-                monitored(next, g_ov)
-                monitored(next, g_ov)
+                for _ in range(2):
+                    if isinstance(guarded_next(g_ov).exc, Blocked):
+                        raise Blocked("a root-override generator advanced while a default generator of the same definition exists")
             got2 = []
             for _ in range(len(raws) + 2):
-                s2 = monitored(next, g_def)
+                s2 = guarded_next(g_def)          # g_ov may be suspended at a yielded error object: a next() that never returns is a violation
+                if isinstance(s2.exc, Blocked):
+                    raise Blocked("a default generator advanced while a root-override generator of the same definition is suspended")
                 if s2.exc is not None:
                     if not isinstance(s2.exc, StopIteration):
                         got2.append(("exception", type(s2.exc).__name__, str(s2.exc)[:200]))
                     break
                 got2.append(plain_item(s2.value))
-                monitored(next, g_ov)
+                if isinstance(guarded_next(g_ov).exc, Blocked):
+                    raise Blocked("a root-override generator advanced while a default generator of the same definition is suspended")
             g_def.close()
             g_ov.close()
             ctx.count("options.root_override_interleaved")
